@@ -32,6 +32,8 @@ def run(ctx, res):
     marker_tab_counts(ctx, res, "C16.R6")
     line_map_rule(ctx, res, "C16.R7")
     frame(ctx, res, "C16.R8")
+    shown_lines(ctx, res, "C16.R9")
+    tab_counter(ctx, res, "C16.R6b")
 
 
 def frame(ctx, res, rule):
@@ -109,6 +111,210 @@ def frame(ctx, res, rule):
                         "the property requires padding* `_start` line-break code-block padding* `\u203eend`" % " ".join(pieces), loc=loc))
 
 
+def frame_ids(b):
+    """the returned string of build_pretty_string_item and its aliases (the frame, C16.R8) - not the shown text"""
+    blk = T.peel(b["tree"])
+    while blk.get("k") == "blockexpr":
+        blk = blk["block"]
+    rid = T.local_of(T.peel(blk["tail"])) if blk.get("tail") is not None else None
+    ids = {rid}
+    for s_ in T.nodes(b["tree"], "let"):
+        if s_["pat"].get("p") == "bind" and s_.get("init") is not None and T.local_of(T.peel_ref(s_["init"])) in ids:
+            ids.add(s_["pat"]["id"])
+    return ids
+
+
+def shown_lines(ctx, res, rule):
+    """`shows exactly the source lines from its first to its last line, each prefixed by its number`:
+    (a) the shown text runs from the start of the line that holds the region's first byte (previous line break + 1, or 0, by a
+    non-pausing scan from `start`) to the end of the line that holds its last byte (next line break from `end - 1`, or the end
+    of the text); (b) it is assembled from contiguous slices of the content that begin and end there (the middle one cut into
+    lines only to wrap each in colour strings), followed by one line break; (c) the numbers run over first..=last of the line
+    range, one line of that text per number; (d) the line range is (line of `range.start`, line of `range.end - 1`)."""
+    P = ctx.lib
+    b = P.fn("list::build_pretty_string_item")
+    fn = fshort(b)
+    loc = T.loc(b["tree"])
+    ps = [p_["pat"] for p_ in b["params"]]
+    if len(ps) < 3 or any(p_.get("p") != "bind" for p_ in ps[:3]):
+        res.cannot(rule, fn, "params", "build_pretty_string_item(content, start, end, ..) expected", loc)
+        return
+    cname, sname, ename = ps[0]["name"], ps[1]["name"], ps[2]["name"]
+    lets = {}
+    for s_ in T.nodes(b["tree"], "let"):
+        if s_["pat"].get("p") == "bind" and s_.get("init") is not None:
+            lets.setdefault(s_["pat"]["name"], []).append(s_)
+
+    def defn(name):
+        return T.render(lets[name][0]["init"]) if name in lets and len(lets[name]) == 1 and "Mut" not in lets[name][0]["pat"].get("mode", "") else None
+    FP = "code::utils::line_break_pos_finder::find_prev_line_break_pos"
+    FN_ = "code::utils::line_break_pos_finder::find_next_line_break_pos"
+    first_forms = {"%s(%s, bytes, %s, false).map(|v| (v + 1)).unwrap_or(0)" % (FP, cname, sname), "%s(%s, bytes, %s, false).map_or(0, |v| (v + 1))" % (FP, cname, sname)}
+    last_forms = {"%s(%s, bytes, (%s - 1), false).unwrap_or(%s.len())" % (FN_, cname, ename, cname), "%s(%s, bytes, (%s - 1), false).unwrap_or_else(|| %s.len())" % (FN_, cname, ename, cname)}
+    # (b) the assembled text: the slices of the content that are appended (directly, through a helper that was re-inlined, or
+    # line by line in a loop / iterator chain) form one contiguous chain from the first line's start to the last line's end
+    def eval_paths(e):
+        I = A.Interp(P)
+        I.lazy_locals = True
+        try:
+            return {(tuple(sorted((k, str(v)) for k, v in o["decisions"].items())), A.show(o["value"])) for o in I.explore(lambda J: J.ev(e, {})) if o["exit"] == "fall"}
+        except A.Cannot:
+            return None
+    prev = "find_prev_line_break_pos(%s, bytes, %s, false)" % (cname, sname)
+    nextl = "find_next_line_break_pos(%s, bytes, (%s - 1), false)" % (cname, ename)
+    want_first = {((("is_some(%s)" % prev, "True"),), "(%s.some + 1)" % prev), ((("is_some(%s)" % prev, "False"),), "0")}
+    want_last = {((("is_some(%s)" % nextl, "True"),), "%s.some" % nextl), ((("is_some(%s)" % nextl, "False"),), "%s.len()" % cname)}
+    slices = []
+    for x, par in T.walk(b["tree"]):
+        if x.get("k") != "index" or T.render(T.peel_ref(x["base"])) != cname or T.peel(x["idx"]).get("k") != "struct":
+            continue
+        f = {z["name"]: T.render(z["e"]) for z in T.peel(x["idx"])["fields"]}
+        if set(f) != {"start", "end"}:
+            continue
+        users = [q for q in par if (q.get("k") == "mcall" and q["name"] == "push_str") or q.get("k") == "for" or (q.get("k") == "let" and q.get("forwarded"))]
+        measured = [q for q in par if (q.get("k") == "call" and (T.callee(q) or "").endswith(("count_tabspace", "::with_capacity"))) or (q.get("k") == "mcall" and q["name"] in ("len", "count") and
+                    any(c_.get("k") == "call" and (T.callee(c_) or "").endswith("::with_capacity") for c_ in par))]
+        if users and not measured and not any(q.get("k") == "let" and q.get("forwarded") for q in par):
+            slices.append((f["start"], f["end"]))
+    slices = sorted(set(slices))
+    okb, why = True, ""
+    starts = [a for a, _ in slices]
+    ends = [e_ for _, e_ in slices]
+    firsts = [a for a in starts if a not in ends]
+    lasts = [e_ for e_ in ends if e_ not in starts]
+    if not slices or len(firsts) != 1 or len(lasts) != 1 or len(set(starts)) != len(starts) or len(set(ends)) != len(ends):
+        okb, why = False, "the appended slices of the content %s do not form one contiguous chain" % slices
+    else:
+        for nm, want, what in ((firsts[0], want_first, "begins"), (lasts[0], want_last, "ends")):
+            d_ = lets.get(nm)
+            got = eval_paths(d_[0]["init"]) if d_ and len(d_) == 1 and "Mut" not in d_[0]["pat"].get("mode", "") else None
+            if got != want:
+                okb, why = False, "the text %s at `%s` = %s, which is not the %s of the line that holds the region's %s byte" % (
+                    what, nm, T.render(d_[0]["init"])[:120] if d_ else "?", "start" if what == "begins" else "end", "first" if what == "begins" else "last")
+                break
+    # where a slice is cut into lines to wrap each in colour strings, every line is put back once (recognised forms: a `map`
+    # closure or a `for` over `content[..].lines()`; other forms are not judged)
+    for x, par in T.walk(b["tree"]):
+        if not okb or x.get("k") != "mcall" or x["name"] != "lines" or not any(y.get("k") == "index" and T.render(T.peel_ref(y["base"])) == cname for y in T.nodes(x["recv"])):
+            continue
+        var, body_ = None, None
+        p1 = par[-1] if par else {}
+        if p1.get("k") == "mcall" and p1["name"] == "map" and T.peel_ref(p1["recv"]) is x and T.peel(p1["args"][0]).get("k") == "closure":
+            clo_ = T.peel(p1["args"][0])
+            binds = [q for q in T.pat_nodes(clo_["params"][0]["pat"]) if q.get("p") == "bind"]
+            var, body_ = (binds[0]["id"] if len(binds) == 1 else None), clo_["body"]
+        else:
+            fl = [q for q in par if q.get("k") == "for" and any(z is x for z in T.nodes(q["iter"]))]
+            if fl:
+                binds = [q for q in T.pat_nodes(fl[-1]["pat"]) if q.get("p") == "bind" and "str" in (q.get("ty") or "")]
+                var, body_ = (binds[0]["id"] if len(binds) == 1 else None), fl[-1]["body"]
+        if var is None:
+            continue
+        uses = 0
+        for y, ypar in T.walk(body_):
+            if y.get("k") == "path" and T.local_of(y) == var:
+                yp = ypar[-1] if ypar else {}
+                if yp.get("k") == "mcall" and yp["name"] in ("len", "is_empty") and T.peel_ref(yp["recv"]) is y:
+                    continue
+                uses += 1
+        if uses != 1:
+            okb, why = False, "a line of the highlighted part is put back %d times" % uses
+    # .. and one line break is appended behind them
+    tails = [x for x, par in T.walk(b["tree"]) if x.get("k") == "mcall" and x["name"] == "push" and T.lit_value(T.peel_ref(x["args"][0])) == "\n"
+             and not any(q.get("k") in ("if", "match", "loop", "for", "closure") for q in par) and "String" in (T.peel_ref(x["recv"]).get("ty") or "")
+             and T.local_of(T.peel_ref(x["recv"])) not in frame_ids(b)]
+    if okb and len(tails) != 1:
+        okb, why = False, "the shown text is not closed by exactly one unconditionally appended line break (%d found)" % len(tails)
+    if okb:
+        res.holds(rule, fn, "shown-text", "slices %s: contiguous, from the first line's start to the last line's end, then a line break" % slices)
+    else:
+        res.add(Finding(rule, fn, "shown-text", "the text of a list item is not exactly the source lines of the region: " + why, loc=loc))
+    # (c) numbering
+    incl = [x for x in T.nodes(b["tree"], "call") if T.render(x).startswith("std::ops::RangeInclusive::new(")]
+    okc = len(incl) == 1 and [T.render(a_) for a_ in incl[0]["args"]] == ["line_range.0", "line_range.1"]
+    nexts = [x for x in T.nodes(b["tree"], "mcall") if x["name"] == "next" and T.local_of(T.peel_ref(x["recv"])) is not None]
+    text_ids = {T.local_of(T.peel_ref(x["recv"])) for x in T.nodes(b["tree"], "mcall") if x["name"] == "push_str"
+                and any(y.get("k") == "index" and T.render(T.peel_ref(y["base"])) == cname for y in T.nodes(x["args"][0]))} - frame_ids(b)
+    line_iters = [s_ for ss in lets.values() for s_ in ss if T.peel(s_["init"]).get("k") == "mcall" and T.peel(s_["init"])["name"] == "lines"
+                  and T.local_of(T.peel_ref(T.peel(s_["init"])["recv"])) in text_ids]
+    if okc and len(line_iters) == 1 and len(nexts) == 1 and T.local_of(T.peel_ref(nexts[0]["recv"])) == line_iters[0]["pat"]["id"]:
+        res.holds(rule, fn, "numbering", "first..=last, one line of the text per number")
+    else:
+        res.add(Finding(rule, fn, "numbering", "the numbered lines are not `line_range.0..=line_range.1`, each taking the next line of the shown text "
+                        "(ranges: %s, next() sites: %d)" % ([[T.render(a_) for a_ in x["args"]] for x in incl], len(nexts)), loc=loc))
+    # (d) the line range
+    g = P.fn("list::get_line_range")
+    gt = T.peel(g["tree"])
+    while gt.get("k") == "blockexpr" and not gt["block"].get("stmts"):
+        gt = T.peel(gt["block"]["tail"])
+    want = "(code::utils::line_map::find_line(line_map, range.start), code::utils::line_map::find_line(line_map, (range.end - 1)))"
+    if T.render(gt) == want:
+        res.holds(rule, fshort(g), "line-range", "(line of range.start, line of range.end - 1)")
+    else:
+        res.add(Finding(rule, fshort(g), "line-range", "the line range of a region is `%s`, not (line of its first byte, line of its last byte)" % T.render(gt)[:160], loc=T.loc(g["tree"])))
+
+
+def tab_counter(ctx, res, rule):
+    """`columns counted with tab = 4`: what widens a marker's column is the number of tab characters in the slice (R6 says
+    which slice) - `count_tabspace` adds one per character (or byte) equal to the tab and nothing otherwise, starting from 0."""
+    P = ctx.lib
+    b = P.fn("blank_counter::count_tabspace")
+    fn = fshort(b)
+    loc = T.loc(b["tree"])
+    body = T.peel(b["tree"])
+    while body.get("k") in ("blockexpr", "block"):
+        blk_ = body["block"] if body.get("k") == "blockexpr" else body
+        if blk_.get("tail") is None or any(not ((s_.get("k") == "let" and s_.get("forwarded")) or (s_.get("k") == "expr" and T.render(s_["e"]) == "()")) for s_ in blk_.get("stmts", [])):
+            break
+        body = T.peel(blk_["tail"])        # (a re-inlined helper: its parameter lets are read through)
+    r = T.render(body)
+    folds = [n for n in T.nodes(body, "mcall") if n["name"] == "fold" and len(n["args"]) == 2 and T.peel(n["args"][1]).get("k") == "closure"]
+    filts = [n for n in T.nodes(body, "mcall") if n["name"] == "filter" and len(n["args"]) == 1 and T.peel(n["args"][0]).get("k") == "closure"]
+    src_ok = re.search(r"\b\w+\.(chars|bytes)\(\)", r) is not None
+    verdict = None
+    I = A.Interp(P)
+    I.lazy_locals = True
+    try:
+        if len(folds) == 1 and not filts and r.endswith(")") and src_ok:
+            clo = T.peel(folds[0]["args"][1])
+
+            def run(J):
+                env = {}
+                J.match_pat(clo["params"][0]["pat"], A.Sym("acc"), env)
+                J.match_pat(clo["params"][1]["pat"], A.Sym("v"), env)
+                return J.ev(clo["body"], env)
+            outs = I.explore(run)
+            got = {(tuple(sorted((k, str(v)) for k, v in o["decisions"].items())), A.show(o["value"])) for o in outs}
+            want = [{((("eq('\\t', v)", "True"),), "(acc + 1)"), ((("eq('\\t', v)", "False"),), "acc")},
+                    {((("eq(v, '\\t')", "True"),), "(acc + 1)"), ((("eq(v, '\\t')", "False"),), "acc")}]
+            seed0 = T.lit_value(folds[0]["args"][0]) == 0
+            verdict = (got in want and seed0, "fold: %s, seed %s" % (sorted(got), T.render(folds[0]["args"][0])))
+        elif len(filts) == 1 and not folds and r.endswith(".count()") and src_ok:
+            clo = T.peel(filts[0]["args"][0])
+
+            def run(J):
+                env = {}
+                J.match_pat(clo["params"][0]["pat"], A.Sym("v"), env)
+                return J.ev(clo["body"], env)
+            outs = I.explore(run)
+            got = {(tuple(sorted((k, str(v)) for k, v in o["decisions"].items())), A.show(o["value"])) for o in outs}
+            keys = {k for dec, _ in got for k, _ in dec}
+            okk = len(keys) == 1 and list(keys)[0] in ("eq('\\t', v)", "eq(v, '\\t')", "eq(9, v)", "eq(v, 9)", "ord(9, v)", "ord(v, 9)") \
+                and all((val == "true") == (dict(dec)[list(keys)[0]] in ("True", "=")) for dec, val in got)
+            verdict = (okk, "filter: %s" % sorted(got))
+    except A.Cannot as e:
+        res.cannot(rule, fn, "tab-counter", str(e), loc)
+        return
+    if verdict is None and re.match(r"^\w+\.matches\('\\t'\)\.count\(\)$", r):
+        verdict = (True, "matches('\\t').count()")
+    if verdict is None:
+        res.cannot(rule, fn, "tab-counter", "count_tabspace is neither a fold over the characters nor `filter(..).count()`: `%s`" % r[:120], loc)
+    elif verdict[0]:
+        res.holds(rule, fn, "tab-counter", verdict[1][:200])
+    else:
+        res.add(Finding(rule, fn, "tab-counter", "count_tabspace does not count exactly the tab characters of its argument (%s)" % verdict[1][:300], loc=loc))
+
+
 def marker_tab_counts(ctx, res, rule):
     """Columns are counted with tab = 4 *to the left of the marker*: the tabs that widen a marker's column are those between
     the start of its line and the marker position - `count_tabspace(&content[line start..start])` for `_start`,
@@ -131,8 +337,8 @@ def marker_tab_counts(ctx, res, rule):
         if s_ is None or "Mut" in s_["pat"].get("mode", ""):
             return False
         calls = [n for n in T.nodes(s_["init"], "call") if T.short_path(T.callee(n) or "").endswith("find_prev_line_break_pos")]
-        if len(calls) != 1 or len(calls[0]["args"]) != 4:
-            return False
+        if len(calls) != 1 or len(calls[0]["args"]) != 4 or T.lit_value(calls[0]["args"][3]) is not False:
+            return False            # (a pausing scan gives up at the first non-blank: the line start would be 0)
         a2 = T.peel_ref(calls[0]["args"][2])
         seed_ok = (T.local_of(a2) == sid) if marker == "start" else (a2.get("k") == "binary" and a2["op"] == "-" and T.local_of(a2["l"]) == eid and T.lit_value(a2["r"]) == 1)
         r = T.render(s_["init"])
